@@ -48,6 +48,7 @@ def run(ctx):
     ctx.rule("R10.5", "TIME-FORMAT: the strftime format the printer chooses for a time tag, evaluated over all zero/non-zero combinations of hour, minute, second and fraction, contains a conversion for every non-zero field (nothing is silently dropped) ")
     ctx.rule("R10.6", "BARE-SYMBOL: a symbol the printer writes without quotes is read back as one symbol: over probe texts the printer's `plain` decision implies that the readers' identifier recogniser consumes the whole text, and no reserved word is printed bare")
     ctx.rule("R10.7", "LOSSLESS-TYPE: the parenthesised exact form of a float/double is read back with the type of the decimal form (same type suffix in the printed text, or the scanner pins the type on the second pass)")
+    ctx.rule("R10.8", "PREV-ORIGINAL: both list printers hand rtosc_print_arg_val, as the value preceding a range, an element of the caller's original argument list - never the range-conversion scratch buffer (the readers infer a range's step from the original left neighbour)")
     ctx.rule("R10.4", "TAG-FIELD: inside the case of tag X only the union member of X is accessed (printer, scanner's numeric switch, arg-val-math.c)")
     pr = u.function("as_escaped_char")
     sc = u.function("get_escaped_char")
@@ -337,3 +338,40 @@ def run(ctx):
     dfmt_ok = any(A.string_literal(A.kids(x)[1]) == "%lf%n" for x in A.walk(u.body(scn)) if x.get("kind") == "BinaryOperator" and x.get("opcode") == "=" and A.ref_name(A.kids(x)[0]) == "fmtstr")
     ctx.ob("R10.7", "double", same_suffix or (pins and dfmt_ok), site=A.where(sws[0]), detail={"decimal_format": dec[0], "lossless_format": los[0], "same_type_suffix": same_suffix, "scanner_pins_type": pins, "reads_with_%lf": dfmt_ok},
            what="a double prints as `%s` + `%s`: the exact form carries no `d` suffix and the scanner does not pin its type, so it is read as a float" % (dec[0], los[0]))
+
+    # ---- R10.8
+    n8 = 0
+    for q in ("rtosc_print_arg_vals", "rtosc_print_arg_val"):
+        fq = u.function(q)
+        scratch = set()
+        for c in A.calls_in(u.body(fq), "rtosc_convert_to_range"):
+            sid = A.ref_id(A.kids(c)[3])
+            if sid:
+                scratch.add(sid)
+        for c in A.calls_in(u.body(fq), "rtosc_print_arg_val"):
+            if q == "rtosc_print_arg_val" and not scratch:
+                continue
+            args_ = A.kids(c)[1:]
+            if len(args_) < 6:
+                continue
+            n8 += 1
+            # transitive sources of the last argument through local pointer assignments
+            seen, work = set(), [y["referencedDecl"]["id"] for y in A.walk(args_[5]) if y.get("kind") == "DeclRefExpr"]
+            while work:
+                v = work.pop()
+                if v in seen:
+                    continue
+                seen.add(v)
+                d = u.by_id.get(v)
+                srcs = []
+                if d is not None and d.get("kind") == "VarDecl" and A.kids(d) and "*" in A.stype(d):
+                    srcs.append(A.kids(d)[-1])
+                for y in A.walk(u.body(fq)):
+                    if y.get("kind") == "BinaryOperator" and y.get("opcode") == "=" and A.ref_id(A.kids(y)[0]) == v and d is not None and d.get("kind") == "VarDecl":
+                        srcs.append(A.kids(y)[1])
+                for e in srcs:
+                    work += [z["referencedDecl"]["id"] for z in A.walk(e) if z.get("kind") == "DeclRefExpr"]
+            leak = sorted(u.by_id[v].get("name") for v in seen & scratch)
+            ctx.ob("R10.8", "%s: preceding value" % q, not leak, site=A.where(c), detail={"argument": A.src(args_[5]), "can_point_into": leak},
+                   what="%s passes `%s` as the value preceding a range; it can point into the conversion scratch buffer %s" % (q, A.src(args_[5]), leak))
+    ctx.require(n8 >= 2, "R10.8: list-context calls of rtosc_print_arg_val not found")
